@@ -30,3 +30,11 @@ add("C12",
     "property-based testing (proptest): Always-rooted => matches start with `/`; globs never Sometimes; reference dot-component scan => has_semantic_literals",
     "Generated patterns (rooted shapes, dot components nested up to two branches deep, near misses) x path pools; clause (c) uses an independent AST scan.",
     "Trusted: the dot-component scan (only whole components spelled as literals count; converse not checked); wax's is_match.")
+add("C08",
+    "property-based testing (proptest): algebraic law match(g,p) <=> strip_prefix && match(postfix, rest), idempotence, display/rebuild round-trip",
+    "Generated globs with every kind of invariant prefix x canonical path pools (incl. prefix-joined samples of the postfix's own program); six clauses of the partition contract are checked as relations between wax outputs.",
+    "Trusted: wax's is_match; the prefix is compared component-wise as text (no path normalisation); globs with a class listing a separator or a spelled trailing separator are outside the domain.")
+add("C19",
+    "property-based testing (proptest): observational equality across conversion routes",
+    "Generated globs x routes (Display+new, Clone, into_owned, FromStr, TryFrom; any of text/compiled/nested/Result/owned) x paths x capture indices: every query, match, capture (text and offsets), span and partition must be identical.",
+    "Trusted: Debug/Display renderings as the comparison key; the partition-display route is C08's business.")
